@@ -321,3 +321,90 @@ func describeEdges(p *Prog, es []CondEdge) string {
 	}
 	return strings.Join(parts, " && ")
 }
+
+// isZeroTestEdge: taking edge e asserts that something is zero / nil / empty: `x == 0`,
+// `x == nil` (in any spelling NormCmp reduces to that), or a private boolean helper answered true
+// that answers true only behind such a test (isNothingToDivide(priorities, distribution)).
+func (p *Prog) isZeroTestEdge(e CondEdge, depth int) bool {
+	iff, ok := e.From.Instrs[len(e.From.Instrs)-1].(*ssa.If)
+	if !ok {
+		return false
+	}
+	return p.isZeroTest(iff.Cond, e.Succ == 0, depth)
+}
+
+func (p *Prog) isZeroTest(cond ssa.Value, truth bool, depth int) bool {
+	if cm := p.NormCmp(cond, truth); cm != nil {
+		if cm.Op != token.EQL {
+			return false
+		}
+		zero := func(x *Sym, k int64) bool {
+			x = deepStrip(x)
+			return k == 0 && (x.String() == "0" || x.String() == "nil" || (x.Op == "const" && (x.Name == "nil" || x.Name == "0")))
+		}
+		return zero(cm.R, cm.RC) && cm.LC == 0 || zero(cm.L, cm.LC) && cm.RC == 0
+	}
+	base, neg := condOf(cond)
+	call, isCall := base.(*ssa.Call)
+	if !isCall || depth > 2 || truth == neg {
+		return false
+	}
+	h := p.Callee(call)
+	if h == nil || !p.IsProduct(h) || !returnsBoolOnly(h) || len(h.Blocks) == 0 {
+		return false
+	}
+	// blocks of h reachable from its entry without taking a zero-test edge
+	reach := map[*ssa.BasicBlock]bool{h.Blocks[0]: true}
+	viaPlain := map[[2]*ssa.BasicBlock]bool{}
+	stack := []*ssa.BasicBlock{h.Blocks[0]}
+	for len(stack) > 0 {
+		x := stack[len(stack)-1]
+		stack = stack[:len(stack)-1]
+		_, isIf := x.Instrs[len(x.Instrs)-1].(*ssa.If)
+		for i, s := range x.Succs {
+			if isIf && len(x.Succs) == 2 && p.isZeroTestEdge(CondEdge{x, i}, depth+1) {
+				continue
+			}
+			viaPlain[[2]*ssa.BasicBlock{x, s}] = true
+			if !reach[s] {
+				reach[s] = true
+				stack = append(stack, s)
+			}
+		}
+	}
+	var okVal func(v ssa.Value, b *ssa.BasicBlock) bool
+	okVal = func(v ssa.Value, b *ssa.BasicBlock) bool {
+		switch x := v.(type) {
+		case *ssa.Const:
+			if constString(x) == "false" {
+				return true
+			}
+			return !reach[b] // true: only behind a zero test
+		case *ssa.Phi:
+			for i, ev := range x.Edges {
+				pred := x.Block().Preds[i]
+				if c, isC := ev.(*ssa.Const); isC {
+					if constString(c) == "true" && reach[pred] && viaPlain[[2]*ssa.BasicBlock{pred, x.Block()}] {
+						return false
+					}
+					continue
+				}
+				if !p.isZeroTest(ev, true, depth+1) && reach[pred] {
+					return false
+				}
+			}
+			return true
+		}
+		return p.isZeroTest(v, true, depth+1) || !reach[b]
+	}
+	for _, b := range h.Blocks {
+		ret, isRet := b.Instrs[len(b.Instrs)-1].(*ssa.Return)
+		if !isRet || b == h.Recover {
+			continue
+		}
+		if len(ret.Results) != 1 || !okVal(ret.Results[0], b) {
+			return false
+		}
+	}
+	return true
+}
